@@ -662,8 +662,6 @@ class Sparse:
         for i in range(len(chunk)):
             if p + i in self.cells:
                 raise Overlap(p + i)
-        if not chunk and p in self.cells:
-            raise Unspecified("empty chunk inside an occupied region")
         for i, b in enumerate(chunk):
             self.cells[p + i] = b
         self.extent = max(self.extent, p + len(chunk))
